@@ -18,7 +18,11 @@ PROP = dict(
                        "Comdex.C09.borrow_step_atomic", "Comdex.C09.failing_step_leaves_no_writes",
                        "Comdex.C09.flagged_borrow_is_backed", "Comdex.C09.v2_borrow_witness_atomic",
                        "Comdex.C09.seize_moves_exactly_collateral", "Comdex.C09.seize_opens_one_auction",
-                       "Comdex.C09.v1_selloff_records", "Comdex.C09.v1_selloff_can_exceed_collateral_counterexample"],
+                       "Comdex.C09.v1_selloff_records", "Comdex.C09.v1_selloff_can_exceed_collateral_counterexample",
+                       "Comdex.C09.v1_borrow_safe_never_seized", "Comdex.C09.v1_msg_borrow_ignores_emode_counterexample",
+                       "Comdex.C09.v1_borrow_seizure_effect", "Comdex.C09.auction_type_follows_whitelisting",
+                       "Comdex.C09.external_liquidation_touches_no_position", "Comdex.C09.keeper_message_is_step_plus_mark",
+                       "Comdex.C09.sweep_live_varbatch_partial", "Comdex.C09.zero_batch_processes_nothing"],
     harness_tests=["TestC09"],
     monitors=["safe_never_seized", "slice_bounds", "seized_within_bound", "seized_within_two_sweeps", "seized_late_after_divergence",
               "gen1_app3_offset_collision", "gen1_selloff_exceeds_collateral", "seize_exact_collateral", "one_auction", "store_order",
